@@ -369,6 +369,266 @@ theorem C13_merkle_no_list_messages (s : State) (now : Nat) (sender : Addr) (id 
     (∃ e, step .merkle (some s) (.addStage now sender st ms) = .error e) := by
   constructor <;> exact ⟨_, rfl⟩
 
+/-- "A stage can be removed only before it starts" applies to the stages that `RemoveStage id` removes
+IMPLICITLY too: in every reachable state, every stage `j ≥ id` that disappears has not started yet. -/
+theorem C13_remove_all_unstarted (v : Variant) (ops : List Op) (s s' : State) (now : Nat) (sender : Addr) (id : Nat)
+    (hr : run v none ops = some s)
+    (h : step v (some s) (.removeStage now sender id) = .ok (some s')) :
+    ∀ j (hj : j < s.stages.length), id ≤ j → now < s.stages[j].start := by
+  obtain ⟨st, hst, hnow, _⟩ := C13_remove v ops s s' now sender id hr h
+  obtain ⟨hid, hget⟩ := List.getElem?_eq_some_iff.1 hst
+  intro j hj hij
+  rcases Nat.eq_or_lt_of_le hij with heq | hlt
+  · subst heq; rw [hget]; exact hnow
+  · have h1 := C13_chain_index v ops s hr id j hlt hj
+    have h2 := (C13_chain v ops)
+    rw [hr] at h2
+    have h3 := h2.2.1 s.stages[id] (List.getElem_mem hid)
+    rw [hget] at h1 h3
+    omega
+
+/-! ## Frame: which messages can change the stage list at all -/
+
+/-- In every reachable state the ONLY execute messages that change the stage list are `AddStage` (appends one
+stage), `RemoveStage` (truncates to `take id`, and only while `now < stages[id].start`) and `UpdateStageConfig`
+(replaces one element, the length stays); member edits, limit, admin messages, `migrate` and unknown messages
+leave it untouched. -/
+theorem C13_stage_list_effect (v : Variant) (ops : List Op) (s s' : State) (op : Op)
+    (hr : run v none ops = some s) (h : exec v s op = .ok s') :
+    match op with
+    | .inst .. => False
+    | .addStage _ _ st _ => s'.stages = s.stages ++ [normStage v st]
+    | .removeStage now _ id => s'.stages = s.stages.take id ∧ ∃ st, s.stages[id]? = some st ∧ now < st.start
+    | .updateStage _ _ u => ∃ st, s'.stages = s.stages.set u.id st
+    | _ => s'.stages = s.stages := by
+  have hI : SInv s := by have := C13_invariant v ops; rw [hr] at this; exact this
+  exact exec_stages hI h
+
+/-- a stage that has started (`stages[k].start ≤ now`, boundary included) survives EVERY execute message, known
+or unknown, from any sender: "can be removed only before it starts" for the whole message surface. -/
+theorem started_stage_survives {v : Variant} {s s' : State} {op : Op} (hI : SInv s) (h : exec v s op = .ok s')
+    (k : Nat) (hk : k < s.stages.length) (hstarted : s.stages[k].start ≤ op.now) :
+    k < s'.stages.length := by
+  have he := exec_stages hI h
+  cases op with
+  | inst => exact absurd he id
+  | addStage now sender st ms => simp only at he; rw [he]; simp; omega
+  | removeStage now sender id =>
+    simp only at he
+    obtain ⟨h1, st, hst, hnow⟩ := he
+    obtain ⟨hid, hget⟩ := List.getElem?_eq_some_iff.1 hst
+    simp only [Op.now] at hstarted
+    have hlt : k < id := by
+      apply Classical.byContradiction
+      intro hnot
+      have hle : id ≤ k := by omega
+      rcases Nat.eq_or_lt_of_le hle with heq | hl
+      · subst heq; rw [hget] at hstarted; omega
+      · have h2 := (List.pairwise_iff_getElem.1 hI.chain.2.2) id k hid hk hl
+        have h3 := hI.chain.2.1 s.stages[id] (List.getElem_mem hid)
+        rw [hget] at h2 h3
+        omega
+    rw [h1, List.length_take]; omega
+  | updateStage now sender u => simp only at he; obtain ⟨st, he⟩ := he; rw [he]; simpa using hk
+  | addMembers now sender id ms => simp only at he; rw [he]; exact hk
+  | removeMembers now sender id as => simp only at he; rw [he]; exact hk
+  | increaseLimit now sender funds limit => simp only at he; rw [he]; exact hk
+  | updateAdmins now sender admins => simp only at he; rw [he]; exact hk
+  | freeze now sender => simp only at he; rw [he]; exact hk
+  | migrate now sender => simp only at he; rw [he]; exact hk
+  | unknown now sender => simp only at he; rw [he]; exact hk
+
+theorem C13_started_stage_not_removed (v : Variant) (ops : List Op) (s s' : State) (op : Op)
+    (hr : run v none ops = some s) (h : exec v s op = .ok s')
+    (k : Nat) (hk : k < s.stages.length) (hstarted : s.stages[k].start ≤ op.now) :
+    k < s'.stages.length := by
+  have hI : SInv s := by have := C13_invariant v ops; rw [hr] at this; exact this
+  exact started_stage_survives hI h k hk hstarted
+
+/-- `migrate` (same code, same version) and messages outside `ExecuteMsg` never change anything -/
+theorem C13_migrate_unknown_frame (v : Variant) (s : State) (now : Nat) (sender : Addr) :
+    (∀ s', exec v s (.migrate now sender) = .ok s' → s' = s) ∧
+    (∃ e, exec v s (.unknown now sender) = .error e) := by
+  constructor
+  · intro s' h
+    simp only [exec] at h
+    split at h
+    · cases h; rfl
+    · simp at h
+  · exact ⟨_, rfl⟩
+
+/-! ## History level: a started stage stays (partial) -/
+
+theorem step_some_exec {v : Variant} {s : State} {op : Op} {w : World} (hni : op.isInst = false)
+    (hs : step v (some s) op = .ok w) : ∃ s1, exec v s op = .ok s1 ∧ w = some s1 := by
+  cases op with
+  | inst => simp [Op.isInst] at hni
+  | _ =>
+    all_goals
+      simp only [step, map_ok] at hs
+      obtain ⟨s1, he, rfl⟩ := hs
+      exact ⟨s1, he, rfl⟩
+
+/-
+FULL STATEMENT (literal, history-level reading of "A stage can be removed only before it starts"):
+  along any history with block times `≥ t0` executed against one contract, a stage that has started by `t0`
+  (`stages[k].start ≤ t0`) is still stage `k` of the list afterwards.
+This is FALSE for the unchanged code: `UpdateStageConfig` uses `validate_update`, which has no check against the
+block time, so an admin can move the start of a RUNNING stage into the future and then remove it
+(`C13_started_stage_removed_counterexample` below; replay `corpus/C13/unstart-then-remove-*.json`).
+PROVED (partial): the statement for histories without `UpdateStageConfig` (and without a re-instantiation,
+which creates a different contract). What is missing: any restriction of `validate_update` relative to `now`.
+-/
+theorem C13_started_stage_stays_partial (v : Variant) (k t0 : Nat) (ops : List Op)
+    (hops : ∀ op ∈ ops, t0 ≤ op.now ∧ op.isInst = false ∧ op.isUpdateStage = false) :
+    ∀ (s : State), SInv s → (hk : k < s.stages.length) → s.stages[k].start ≤ t0 →
+      ∃ s', run v (some s) ops = some s' ∧ s'.stages.take (k + 1) = s.stages.take (k + 1) := by
+  induction ops with
+  | nil => intro s _ _ _; exact ⟨s, rfl, rfl⟩
+  | cons op rest ih =>
+    intro s hI hk hst
+    have hop := hops op (by simp)
+    have hrest : ∀ o ∈ rest, t0 ≤ o.now ∧ o.isInst = false ∧ o.isUpdateStage = false :=
+      fun o ho => hops o (by simp [ho])
+    simp only [run, List.foldl_cons]
+    -- one step
+    have hstep : ∃ s1, step' v (some s) op = some s1 ∧ SInv s1 ∧ s1.stages.take (k + 1) = s.stages.take (k + 1) := by
+      unfold step'
+      cases hs : step v (some s) op with
+      | error e => exact ⟨s, rfl, hI, rfl⟩
+      | ok w =>
+        obtain ⟨s1, he, rfl⟩ := step_some_exec hop.2.1 hs
+        refine ⟨s1, rfl, exec_inv hI he, ?_⟩
+        have hst' := exec_stages hI he
+        cases op with
+        | inst => simp [Op.isInst] at hop
+        | updateStage => simp [Op.isUpdateStage] at hop
+        | addStage now sender st ms =>
+          simp only at hst'
+          rw [hst', List.take_append_of_le_length (by omega)]
+        | removeStage now sender id =>
+          simp only at hst'
+          obtain ⟨h1, st, hget, hnow⟩ := hst'
+          obtain ⟨hid, hg⟩ := List.getElem?_eq_some_iff.1 hget
+          have hlt : k < id := by
+            apply Classical.byContradiction
+            intro hnot
+            have hle : id ≤ k := by omega
+            have h0 : t0 ≤ now := hop.1
+            rcases Nat.eq_or_lt_of_le hle with heq | hl
+            · subst heq; rw [hg] at hst; omega
+            · have h2 := (List.pairwise_iff_getElem.1 hI.chain.2.2) id k hid hk hl
+              have h3 := hI.chain.2.1 s.stages[id] (List.getElem_mem hid)
+              rw [hg] at h2 h3
+              omega
+          rw [h1, List.take_take, Nat.min_eq_left (by omega)]
+        | addMembers now sender id ms => simp only at hst'; rw [hst']
+        | removeMembers now sender id as => simp only at hst'; rw [hst']
+        | increaseLimit now sender funds limit => simp only at hst'; rw [hst']
+        | updateAdmins now sender admins => simp only at hst'; rw [hst']
+        | freeze now sender => simp only at hst'; rw [hst']
+        | migrate now sender => simp only at hst'; rw [hst']
+        | unknown now sender => simp only at hst'; rw [hst']
+    obtain ⟨s1, h1, hI1, ht⟩ := hstep
+    have hlen : k < s1.stages.length := by
+      have := congrArg List.length ht
+      simp only [List.length_take] at this
+      omega
+    have hk1 : s1.stages[k] = s.stages[k] := by
+      have h1' : (s1.stages.take (k + 1))[k]? = (s.stages.take (k + 1))[k]? := by rw [ht]
+      simpa [List.getElem?_take, hlen, hk] using h1'
+    obtain ⟨s', hr', ht'⟩ := ih hrest s1 hI1 hlen (by rw [hk1]; exact hst)
+    refine ⟨s', ?_, by rw [ht', ht]⟩
+    rw [h1]; exact hr'
+
+/-! ## `StageMemberInfo` / `AllStageMemberInfo`: answers for a NAMED stage come from that stage only -/
+
+/-- `StageMemberInfo{stage_id, member}`: `is_member` is exactly "the address has an entry under THAT stage id";
+plain reports that stage's per-address limit, flex the entry's own `mint_count` (0 when absent). -/
+theorem C13_stage_member_info_scoped (v : Variant) (s : State) (id : Nat) (a : Addr) (b : Bool) (p : Nat)
+    (h : stageMemberInfo v s id a = .ok (b, p)) :
+    validAddr a = true ∧ b = hasKey s.members id a ∧
+      (v ≠ .flex → ∃ st, s.stages[id]? = some st ∧ p = st.pal) ∧
+      (v = .flex → p = (lookup s.members id a).getD 0) := by
+  unfold stageMemberInfo at h
+  cases hv : validAddr a
+  · simp [hv] at h
+  · simp only [hv, Bool.not_true, Bool.false_eq_true, ↓reduceIte] at h
+    by_cases hf : v = .flex
+    · subst hf
+      simp only [beq_self_eq_true, ↓reduceIte] at h
+      have hk := lookup_isSome s.members id a
+      cases hl : lookup s.members id a with
+      | none =>
+        rw [hl] at h hk
+        simp only [Except.ok.injEq, Prod.mk.injEq] at h
+        refine ⟨rfl, ?_, fun hne => absurd rfl hne, fun _ => by simp [← h.2]⟩
+        rw [← h.1, ← hk]; rfl
+      | some c =>
+        rw [hl] at h hk
+        simp only [Except.ok.injEq, Prod.mk.injEq] at h
+        refine ⟨rfl, ?_, fun hne => absurd rfl hne, fun _ => by simp [← h.2]⟩
+        rw [← h.1, ← hk]; rfl
+    · have hb : (v == Variant.flex) = false := by cases v <;> simp_all
+      simp only [hb, Bool.false_eq_true, ↓reduceIte] at h
+      cases hs : s.stages[id]? with
+      | none => simp [hs] at h
+      | some st =>
+        simp only [hs, Except.ok.injEq, Prod.mk.injEq] at h
+        exact ⟨rfl, h.1.symm, fun _ => ⟨st, rfl, h.2.symm⟩, fun hf' => absurd hf' hf⟩
+
+/-- frame form: the answer for stage `id` does not depend on the entries of any OTHER stage -/
+theorem C13_stage_member_info_frame (v : Variant) (s s' : State) (id : Nat) (a : Addr) (hst : s.stages = s'.stages)
+    (hm : s.members.filter (fun m => m.1 == id) = s'.members.filter (fun m => m.1 == id)) :
+    stageMemberInfo v s id a = stageMemberInfo v s' id a := by
+  unfold stageMemberInfo
+  rw [hasKey_filter s.members, hasKey_filter s'.members, lookup_filter s.members, lookup_filter s'.members, hm, hst]
+
+theorem smiFrom_spec (v : Variant) (s : State) (a : Addr) :
+    ∀ (n k : Nat) (l : List (Bool × Nat)), smiFrom v s a n k = .ok l →
+      l.length = n ∧ ∀ i (hi : i < l.length), stageMemberInfo v s (k + i) a = .ok l[i] := by
+  intro n
+  induction n with
+  | zero => intro k l h; simp only [smiFrom, Except.ok.injEq] at h; subst h; simp
+  | succ n ih =>
+    intro k l h
+    simp only [smiFrom] at h
+    split at h
+    · simp at h
+    · rename_i r hr
+      split at h
+      · rename_i l' hl'
+        simp only [Except.ok.injEq] at h
+        subst h
+        have := ih (k + 1) l' hl'
+        refine ⟨by simp [this.1], ?_⟩
+        intro i hi
+        cases i with
+        | zero => simpa using hr
+        | succ i =>
+          have h2 := this.2 i (by simpa using hi)
+          simp only [List.getElem_cons_succ]
+          rw [← h2]; congr 1; omega
+      · simp at h
+
+/-- `AllStageMemberInfo{member}`: exactly one answer per EXISTING stage, in stage order, and the `k`-th answer
+is the `StageMemberInfo` answer for stage `k` (hence scoped to stage `k` by the two theorems above) -/
+theorem C13_all_stage_member_info (v : Variant) (s : State) (a : Addr) (l : List (Bool × Nat))
+    (h : allStageMemberInfo v s a = .ok l) :
+    l.length = s.stages.length ∧ ∀ k (hk : k < l.length), stageMemberInfo v s k a = .ok l[k] := by
+  unfold allStageMemberInfo at h
+  split at h
+  · simp at h
+  · have := smiFrom_spec v s a _ 0 l h
+    exact ⟨this.1, fun k hk => by simpa using this.2 k hk⟩
+
+/-- every stored member entry belongs to an EXISTING stage — after every history (so nothing of a removed stage
+is left behind, and a re-added stage starts empty) -/
+theorem C13_no_orphan_members (v : Variant) (ops : List Op) (s : State) (hr : run v none ops = some s) :
+    ∀ m ∈ s.members, m.1 < s.stages.length := by
+  have hI : SInv s := by have := C13_invariant v ops; rw [hr] at this; exact this
+  exact hI.bound
+
 /-! ## Non-vacuity: the hypotheses above are satisfiable (concrete histories) -/
 
 section Examples
@@ -416,6 +676,29 @@ example : stagesOf (run .merkle none [.inst 5 7 [⟨0, 1000000000⟩] 0 none [7]
 -- the hypotheses of `C13_remove` / `C13_first_future_add` are satisfiable
 example : ∃ s', step .plain (run .plain none [exInst]) (.removeStage 19 7 1) = .ok (some s') ∧ s'.num = 1 := by
   refine ⟨_, rfl, ?_⟩; decide
+
+/-- COUNTEREXAMPLE to the literal history-level reading (see `C13_started_stage_stays_partial`): stage 0 = [10,20]
+is the ACTIVE stage at block time 15; in that same block the admin moves its start to 16 (`update_stage_config`,
+accepted: `validate_update` never looks at the clock) and then removes it (`now = 15 < 16`): a stage that had
+started — was running — is removed, with every later stage and all members. Plain and flex. -/
+theorem C13_started_stage_removed_counterexample :
+    activeIdx [exStage 0 10 20, exStage 1 20 30, exStage 2 40 50] 15 = some 0 ∧
+    stagesOf (run .plain none [exInst]) = [(10, 20), (20, 30), (40, 50)] ∧
+    stagesOf (run .plain none [exInst, .updateStage 15 7 ⟨0, none, some 16, none, none, none, none⟩,
+      .removeStage 15 7 0]) = [] ∧
+    membersOf' (run .plain none [exInst, .updateStage 15 7 ⟨0, none, some 16, none, none, none, none⟩,
+      .removeStage 15 7 0]) = [] ∧
+    stagesOf (run .flex none [exInst, .updateStage 15 7 ⟨0, none, some 16, none, none, none, none⟩,
+      .removeStage 15 7 0]) = [] := by decide
+
+-- the hypotheses of `C13_started_stage_stays_partial` are satisfiable: the same removal WITHOUT the update is rejected
+example : stagesOf (run .plain none [exInst, .removeStage 15 7 0]) = [(10, 20), (20, 30), (40, 50)] := by decide
+-- migrate (Merkle) and unknown messages change nothing
+example : stagesOf (run .merkle none [.inst 5 7 [⟨0, 1000000000⟩] 0 none [7] true [exStage 0 10 20, exStage 1 20 30] [] [1, 2] false,
+    .migrate 15 6, .unknown 15 7]) = [(10, 20), (20, 30)] := by decide
+-- AllStageMemberInfo: one answer per stage; address 11 is in stages 0 and 2 of `exInst`
+example : (match run .plain none [exInst] with | some s => allStageMemberInfo .plain s 11 | none => .error .other).toOption
+    = some [(true, 1), (false, 1), (true, 1)] := by decide
 
 end Examples
 
